@@ -966,10 +966,10 @@ class Fetcher:
             tp_state = assignment.state_value(tp)
             if not tp_state.awaiting_reset:
                 continue
-            needs_reset.append(tp)
 
             strategy = tp_state.reset_strategy
             assert strategy is not None
+            needs_reset.append((tp, strategy))
             log.debug(
                 "Resetting offset for partition %s using %s strategy.",
                 tp,
@@ -990,11 +990,13 @@ class Fetcher:
         except asyncio.CancelledError:
             return needs_wakeup
 
-        for tp in needs_reset:
+        for tp, strategy in needs_reset:
             offset = offsets[tp][0]
             tp_state = assignment.state_value(tp)
-            # There could have been some `seek` call while fetching offset
-            if tp_state.awaiting_reset:
+            # There could have been some `seek` call while fetching offset. A
+            # `seek_to_*` call leaves the partition awaiting a reset, but with
+            # another strategy: the offset we got is not the one it asked for
+            if tp_state.awaiting_reset and tp_state.reset_strategy == strategy:
                 tp_state.reset_to(offset)
         return needs_wakeup
 
